@@ -14,6 +14,8 @@ pub mod c13;
 pub mod c14;
 pub mod c15;
 pub mod c16;
+pub mod c17;
+pub mod c18;
 pub mod replay;
 
 use crate::report::Tier;
@@ -36,6 +38,8 @@ pub fn dispatch(prop: &str, tier: Tier) -> i32 {
         "C14" => c14::run(tier),
         "C15" => c15::run(tier),
         "C16" => c16::run(tier),
+        "C17" => c17::run(tier),
+        "C18" => c18::run(tier),
         _ => {
             println!("MACHINERY-ERROR: unknown property {}", prop);
             2
